@@ -13,6 +13,7 @@ import (
 	"context"
 	"flag"
 	"fmt"
+	"github.com/henrylee2cn/erpc/v6/plugin/heartbeat"
 	"github.com/henrylee2cn/erpc/v6/plugin/secure"
 	"sort"
 	"strings"
@@ -243,6 +244,21 @@ type env struct {
 	cli    erpc.Peer
 	srv    erpc.Peer
 	routes map[string]string
+	ping   heartbeat.Ping // only in the heartbeat environment
+	beat   *env
+}
+
+// beatEnv is the same pair of peers with the heartbeat plug-ins (ping on the calling peer, pong on the other).
+func (e *env) beatEnv() *env {
+	if e.beat == nil {
+		ping := heartbeat.NewPing(3, true)
+		b := &env{p: e.p, cli: erpc.NewPeer(erpc.PeerConfig{}, ping), srv: erpc.NewPeer(erpc.PeerConfig{}, heartbeat.NewPong()), routes: map[string]string{}, ping: ping}
+		b.routes["echo"] = b.srv.RouteCallFunc(HEcho)
+		b.routes["typed"] = b.srv.RouteCallFunc(HTyped)
+		b.cli.RouteCallFunc(HEcho)
+		e.beat = b
+	}
+	return e.beat
 }
 
 func newEnv(p protos.P) *env {
@@ -786,6 +802,19 @@ func runChaos(e *env, idx int, r *core.Rand) {
 	core.Add("evaluations", 1)
 	core.Add("chaos_cases", 1)
 	core.Sample(desc)
+	rateAt := -1
+	if idx%4 == 1 && e.p.Push {
+		// the peers carry the heartbeat plug-ins and the ping rate is changed at run time among the calls
+		e = e.beatEnv()
+		rateAt = r.Intn(ncalls + 1)
+		desc["heartbeat_rate_changed_after_calls"] = rateAt
+		core.Add("chaos_cases_with_heartbeat_rate_change", 1)
+	}
+	setRate := func(i int) {
+		if i == rateAt {
+			go e.ping.SetRate(4 + idx%5)
+		}
+	}
 	l, err := bed.Connect(e.cli, e.srv, e.p.Func, e.p.Func, nil)
 	if err != nil {
 		core.Result(core.R{ID: id, Verdict: core.Inconclusive, What: "connect"})
@@ -797,6 +826,7 @@ func runChaos(e *env, idx int, r *core.Rand) {
 	var closers []*closer
 	outs := make([][]byte, ncalls)
 	for i := 0; i < ncalls; i++ {
+		setRate(i)
 		if i == after {
 			closers = append(closers, act(action, l, m, e, nil)...)
 		}
@@ -828,6 +858,7 @@ func runChaos(e *env, idx int, r *core.Rand) {
 		}
 		m.call(sess, label, e.routes["echo"], []byte(fmt.Sprintf("c%d", i)), &outs[i], settings...)
 	}
+	setRate(ncalls)
 	if after == ncalls {
 		closers = append(closers, act(action, l, m, e, nil)...)
 	}
